@@ -49,6 +49,13 @@
 //     appended to the trace as `("set resp.Compress", ["true"])`; values read
 //     from abstract objects are re-read (fresh parameters) after any opaque
 //     call or such a write;
+//   - with the option "names" a value of abstract type that is assigned to a
+//     local or returned is instead represented by a *symbolic name* (a Lean
+//     String): the source text of the field path, parameter, `nil` or call that
+//     produced it (the call is traced); such a local or a field path passed to
+//     a traced call appears in the trace entry by that name, and a method
+//     called on such a local records the name as first argument ("which of the
+//     two caches is written"); results of abstract type are such names;
 //   - a type switch on an abstract value is an if-chain, in clause order, over
 //     extra Bool parameters `e<k>_is_<T>` ("the dynamic type is T"); fields of
 //     the narrowed value are opaque values as above;
@@ -113,6 +120,9 @@ type TrFunc struct {
 	// Pure lists printed callee expressions whose calls are opaque *values*
 	// that are not recorded in the trace (getters such as t.UnixNano).
 	Pure []string `json:"pure,omitempty"`
+	// Names represents values of abstract type by symbolic names (Strings)
+	// instead of their nil-ness; see the header comment.
+	Names bool `json:"names,omitempty"`
 }
 
 type trSpecFile struct {
@@ -530,6 +540,12 @@ func implementsError(t types.Type) bool {
 // exprAs translates e for a context of type to (implicit conversion of a
 // concrete error value to the error interface).
 func (c *fctx) exprAs(e ast.Expr, to types.Type) ex {
+	if c.spec.Names && to != nil && c.t.leanType(to) == "" {
+		if a, ok := c.absExpr(e, true); ok {
+			return a
+		}
+		fail("abstract value %s", c.show(e))
+	}
 	if to != nil && isError(to) {
 		if id, ok := e.(*ast.Ident); ok && id.Name == "nil" {
 			return ex{code: "none"}
@@ -544,6 +560,43 @@ func (c *fctx) exprAs(e ast.Expr, to types.Type) ex {
 		}
 	}
 	return c.expr(e)
+}
+
+// absExpr gives the symbolic name (a Lean String) of an expression of abstract
+// type ("names"): a local holds the name it was assigned; a field path is its
+// own source text; where value is set (assignments, returns) nil and parameters
+// are their own text too and a call is traced and named by its source text.
+func (c *fctx) absExpr(e ast.Expr, value bool) (ex, bool) {
+	switch x := ast.Unparen(e).(type) {
+	case *ast.Ident:
+		v, ok := c.p.info.Uses[x].(*types.Var)
+		if ok && v.Parent() != c.p.pkg.Scope() && !(c.fd.Type.Params.Pos() <= v.Pos() && v.Pos() < c.fd.Type.Params.End()) &&
+			!(c.fd.Recv != nil && c.fd.Recv.Pos() <= v.Pos() && v.Pos() < c.fd.Recv.End()) {
+			return ex{code: leanIdent(x.Name)}, true
+		}
+		return ex{code: fmt.Sprintf("%q", x.Name)}, value
+	case *ast.SelectorExpr:
+		if c.isFieldPath(x) {
+			return ex{code: fmt.Sprintf("%q", c.show(x))}, true
+		}
+	case *ast.CallExpr:
+		if value {
+			return ex{code: "«call:" + c.traceEntry(x) + "»" + fmt.Sprintf("%q", c.show(x))}, true
+		}
+	}
+	return ex{}, false
+}
+
+func (c *fctx) isFieldPath(e ast.Expr) bool {
+	switch x := e.(type) {
+	case *ast.Ident:
+		_, ok := c.p.info.Uses[x].(*types.Var)
+		return ok
+	case *ast.SelectorExpr:
+		sel := c.p.info.Selections[x]
+		return sel != nil && sel.Kind() == types.FieldVal && c.isFieldPath(x.X)
+	}
+	return false
 }
 
 // bind2 combines sub-expressions: f receives pure codes.
@@ -1087,6 +1140,14 @@ func (c *fctx) call(x *ast.CallExpr) ex {
 // values of those arguments that are pure expressions of translatable type.
 func (c *fctx) traceEntry(x *ast.CallExpr) string {
 	var args []string
+	if se, ok := x.Fun.(*ast.SelectorExpr); ok && c.spec.Names {
+		// a method of an abstract *local*: which value it holds is the first argument
+		if id, ok := se.X.(*ast.Ident); ok && c.p.info.Selections[se] != nil && c.t.leanType(c.typeOf(id)) == "" {
+			if a, ok := c.absExpr(id, false); ok {
+				args = append(args, a.code)
+			}
+		}
+	}
 	for _, a := range x.Args {
 		args = append(args, c.traceArg(a))
 	}
@@ -1110,6 +1171,11 @@ func (c *fctx) traceArg(a ast.Expr) (code string) {
 		return code
 	}
 	lt := c.t.leanType(tv.Type)
+	if lt == "" && c.spec.Names {
+		if a, ok := c.absExpr(a, false); ok {
+			return a.code
+		}
+	}
 	if lt != "Int" && lt != "Bool" && lt != "String" {
 		return code
 	}
@@ -1931,6 +1997,9 @@ func (t *translator) translate(sp TrFunc) (fo *funcOut) {
 			c.named = true
 		}
 		lt := t.leanType(v.Type())
+		if lt == "" && sp.Names {
+			lt = "String" // symbolic name of an abstract value
+		}
 		if lt == "" {
 			fail("result type %s", v.Type())
 		}
@@ -1942,6 +2011,10 @@ func (t *translator) translate(sp TrFunc) (fo *funcOut) {
 	pre := ""
 	if c.named {
 		for _, v := range c.results {
+			if t.leanType(v.Type()) == "" && sp.Names {
+				pre += fmt.Sprintf("let %s : String := \"nil\"\n", leanIdent(v.Name()))
+				continue
+			}
 			pre += fmt.Sprintf("let %s : %s := %s\n", leanIdent(v.Name()), t.leanType(v.Type()), c.zero(v.Type()))
 		}
 	}
